@@ -101,8 +101,11 @@ func C05(run *report.Run) {
 					assign[i] = assign[0]
 				}
 			}
-			for _, declOrder := range []string{"template", "reversed-op", "override"} {
+			for _, declOrder := range []string{"template", "reversed-op", "override", "sibling"} {
 				if declOrder == "reversed-op" && (n < 2 || a%3 != 0) {
+					continue
+				}
+				if declOrder == "sibling" && a%2 != 1 {
 					continue
 				}
 				if declOrder == "override" && a%2 != 0 {
@@ -113,8 +116,13 @@ func C05(run *report.Run) {
 						continue
 					}
 					base := cells.BaseFormByName(bn)
-					ts := mkTemplates(shape, []string{"GET"})
+					methods := []string{"GET"}
+					if declOrder == "sibling" {
+						methods = []string{"GET", "DELETE"}
+					}
+					ts := mkTemplates(shape, methods)
 					varTypes := map[string]map[string]drv.PType{}
+					varTypesByOp := map[string]map[string]drv.PType{}
 					sp := &spec.Spec{}
 					vi := 0
 					segAlpha := map[string]bool{"a": true, "b": true, "": true}
@@ -156,10 +164,32 @@ func C05(run *report.Run) {
 								pi.Params = append(pi.Params, &spec.Param{Name: p.Name, In: "path", Required: true, Schema: spec.T("boolean")})
 							}
 							op.Params = ps
+						case "sibling":
+							// the path item declares the variables; GET inherits them, DELETE re-declares every one
+							// as a boolean (a string where it already is a boolean)
+							pi.Params = ps
+							del := &spec.Op{Method: "DELETE", Responses: []*spec.Response{{Status: "default", Desc: "d"}}}
+							varTypesByOp["DELETE "+t.Path] = map[string]drv.PType{}
+							for _, p := range ps {
+								ot := drv.PType{Type: "boolean"}
+								if varTypes[t.Path][p.Name].Type == "boolean" {
+									ot = drv.PType{Type: "string"}
+								}
+								del.Params = append(del.Params, &spec.Param{Name: p.Name, In: "path", Required: true, Schema: spec.T(ot.Type)})
+								varTypesByOp["DELETE "+t.Path][p.Name] = ot
+								for _, lx := range refmodel.Lexemes(ot.Type, "") {
+									if !strings.Contains(lx, "/") {
+										segAlpha[lx] = true
+									}
+								}
+							}
+							pi.Ops = []*spec.Op{op, del}
 						default:
 							pi.Params = ps
 						}
-						pi.Ops = []*spec.Op{op}
+						if len(pi.Ops) == 0 {
+							pi.Ops = []*spec.Op{op}
+						}
 						sp.Paths = append(sp.Paths, pi)
 					}
 					if len(base.Servers) > 0 {
@@ -185,7 +215,7 @@ func C05(run *report.Run) {
 					}
 					id := fmt.Sprintf("T={%s};types=%s;decl=%s;base=%s", strings.Join(shape, " "), strings.Join(names, ","), declOrder, bn)
 					pl := &drv.PathPayload{RoutePayload: drv.RoutePayload{State: id, Templates: ts, Base: base.Want, BaseName: bn, Prefixes: []string{base.Want},
-						Segs: segs, MaxDepth: maxDepth, Methods: []string{"GET"}}, VarTypes: varTypes}
+						Segs: segs, MaxDepth: maxDepth, Methods: methods}, VarTypes: varTypes, VarTypesByOp: varTypesByOp}
 					states = append(states, BState{ID: id, Attrs: map[string]string{"shape": strings.Join(shape, " "), "decl": declOrder}, Gen: &genrun.Job{Spec: sp.YAML(), BasePath: base.Flag}, Prop: "C05", Payload: pl})
 				}
 			}
@@ -199,7 +229,7 @@ func C05(run *report.Run) {
 	run.Cov["masked_states"] = st.Masked
 	run.Cov["masked_why"] = st.MaskedWhy
 	run.Cov["enumerated_states"] = st.States
-	run.Cov["rule"] = "state = template shape × type assignment of its variables × declaration order/level × base-path form; transition = one request path over {a, b, empty} ∪ the lexeme tables of the assigned types (canonical, boundary, out-of-range, garbage), all sequences up to the template depth; judged when dispatched: Parse() vs reference lexer on the aligned segments"
+	run.Cov["rule"] = "state = template shape × type assignment of its variables × declaration order/level (path item, operation reversed, operation overriding the path item, sibling operation overriding while the judged one inherits) × base-path form; transition = one request path over {a, b, empty} ∪ the lexeme tables of the assigned types (canonical, boundary, out-of-range, garbage), all sequences up to the template depth; judged when dispatched: Parse() vs reference lexer on the aligned segments"
 }
 
 // reduceSegs keeps a spread of a long lexeme alphabet (every third lexeme plus literals and empty).
